@@ -29,17 +29,25 @@ def run(tier, replay=None):
     work = C.fresh_dir(C.WORK / PID)
     import random
     key = lambda c: json.dumps(c["hist"], sort_keys=True)
+    rnd = random.Random(rep.seed)
+    bfs, g = gen.run_generator("GenClos", work / "gen", dict(MaxLen=2), cfg="GenClosLight", timeout=1200)
     if tier == "quick":
-        bfs, g = gen.run_generator("GenClos", work / "gen", dict(MaxLen=2), cfg="GenClosLight")
         sim, g2 = gen.run_generator("GenClos", work / "sim", dict(MaxLen=8), cfg="GenClosLight", simulate=700, depth=9, seed=rep.seed, timeout=120)
     else:
-        bfs, g = gen.run_generator("GenClos", work / "gen", dict(MaxLen=3), cfg="GenClosLight", timeout=3000)
-        sim, g2 = gen.run_generator("GenClos", work / "sim", dict(MaxLen=12), cfg="GenClosLight", simulate=6000, depth=13, seed=rep.seed, timeout=900)
+        sim, g2 = gen.run_generator("GenClos", work / "sim", dict(MaxLen=12), cfg="GenClosLight", simulate=8000, depth=13, seed=rep.seed, timeout=900)
     bfs = gen.dedupe(bfs, key)
+    enumerated = len(bfs)
+    # every single operation; every ordered pair in thorough, a seeded sample of the pairs in quick
+    singles = [c for c in bfs if len(c["hist"]) == 1]
+    pairs = [c for c in bfs if len(c["hist"]) == 2]
+    pair_budget = 2600 if tier == "quick" else len(pairs)
+    if len(pairs) > pair_budget:
+        pairs = rnd.sample(pairs, pair_budget)
+    bfs = singles + pairs
     sim = [c for c in gen.dedupe(sim, key) if len(c["hist"]) >= 3]
     budget = 1500 if tier == "quick" else 30000
     if len(sim) > budget:
-        sim = random.Random(rep.seed).sample(sim, budget)
+        sim = rnd.sample(sim, budget)
     nbfs = len(bfs)
     cases, gx = gen.expand("GenClos", work / "expand", gen.dedupe(bfs + sim, key), "GenClosSel")
     bfs = cases[:nbfs]
@@ -68,10 +76,11 @@ def run(tier, replay=None):
                       dict(case=c["id"], verdict=d, files={"main.ms": c["src"]}, stderr=[o["err"] for o in c["obs"]]))
     rep.coverage = dict(**vcov, traces_validated_against_impl=vres["recorded"],
         evaluations=len(cases), distinct_nontrivial=sum(1 for c in cases if any(o["op"] == "call" for o in c["hist"])),
-        rule="GenClos.tla: BFS over all operation histories up to MaxLen over 43 operations (4 instances x 3 closure kinds x 3 call routes, owner assignment, is_closure), plus seeded -simulate histories up to length 8 (quick) / 12 (thorough); non-trivial = contains at least one closure call; distinct by history",
+        rule="GenClos.tla: operation histories over 104 operations (8 closure instances - module level, two calls of one maker, nested maker, shadowing middle function, captured parameter, two iterations of a loop body - x 4 closure kinds (reader, modify-writer, local writer, typed local writer) x 3 call routes (direct, through a caller owning a same-named local, through a plain caller), owner assignment, is_closure): every single operation, every ordered pair (thorough) or a seeded sample of the pairs (quick), plus seeded -simulate histories up to length 8 (quick) / 12 (thorough); non-trivial = contains at least one closure call; distinct by history",
+        enumerated_len_le_2=enumerated, singles=len(singles), pairs_run=len(pairs),
         samples=[dict(history=c["id"], observed=c["obs"][0]["out"]) for c in cases[:: max(1, len(cases) // 3)][:3]],
         states=st["states"] + vres["states"] + g.distinct, transitions=st["transitions"] + vres["transitions"] + g.generated, out_of_model=len(skips),
-        rejected_by_compiler=sum(1 for c in cases if c["rejected"]), executions=2 * len(cases), exhaustive_len=2 if tier == "quick" else 3,
+        rejected_by_compiler=sum(1 for c in cases if c["rejected"]), executions=2 * len(cases), exhaustive_len=1 if tier == "quick" else 2,
     )
     rep.assumptions = ["MSLang.tla closure semantics: lexical scoping, capture of free variables by cell identity, `modify` writes the captured cell, plain assignment declares a local"]
     return rep.finish()
